@@ -95,6 +95,9 @@ pub struct Meta {
     pub r: usize,
     pub c: usize,
     pub maxabs: f64,
+    /// produced by `transpose`, a column-major constructor, h_stack or ab, or computed from such a
+    /// register (memory layout possibly not row-major on some back ends)
+    pub tr: bool,
 }
 
 pub struct File<B: Be> {
@@ -205,7 +208,7 @@ impl<B: Be> File<B> {
     pub fn new() -> File<B> {
         File {
             regs: (0..=NREG).map(|_| Reg::E).collect(),
-            meta: vec![Meta { kind: 0, r: 0, c: 0, maxabs: 0.0 }; NREG + 1],
+            meta: vec![Meta { kind: 0, r: 0, c: 0, maxabs: 0.0, tr: false }; NREG + 1],
             skipped: 0,
         }
     }
@@ -221,9 +224,55 @@ impl<B: Be> File<B> {
     /// Executes one call; returns None when an operand register is empty (the call is
     /// skipped and counted; this only happens when an earlier call of the run failed).
     pub fn exec(&mut self, run: i64, call: &OpCall) -> Option<Value> {
+        if !self.in_range(call) {
+            // only possible when a program generated on another back end is replayed after this back end
+            // has already deviated from it (different shapes): the call is skipped and counted
+            self.skipped += 1;
+            return None;
+        }
         let a = self.operand(call.a);
         let b = self.operand(call.b);
-        self.exec_on(run, "Op", call, a, b, None)
+        let atr = call.a >= 1 && call.a <= NREG && self.meta[call.a].tr;
+        let btr = call.b >= 1 && call.b <= NREG && self.meta[call.b].tr;
+        let mut e = self.exec_on(run, "Op", call, a, b, None)?;
+        e["atr"] = json!(atr);
+        e["btr"] = json!(btr);
+        let target = if is_in_place(&call.op) { call.a } else { call.dst };
+        if e["status"] == "ok" && (e["kind"] == "m") && target >= 1 && target <= NREG && self.meta[target].kind == 1 {
+            // provenance of the memory layout, over-approximated: a register is "tr" when it was made by
+            // transpose or the column-major constructor, or computed from such a register
+            let fresh = call.a == 0 && call.b == 0;
+            // (h_stack: ndarray's concatenate along axis 1 yields a column-major array; ab: the default
+            // implementation transposes its result when both flags are set)
+            let source = matches!(call.op.as_str(), "transpose" | "new" | "h_stack" | "ab");
+            self.meta[target].tr = source || (!fresh && (atr || btr));
+        }
+        Some(e)
+    }
+
+    /// are the index arguments of the call inside the shapes of its operand registers?
+    fn in_range(&self, call: &OpCall) -> bool {
+        let ma = if call.a >= 1 && call.a <= NREG { self.meta[call.a] } else { Meta { kind: 0, r: 0, c: 0, maxabs: 0.0, tr: false } };
+        let mb = if call.b >= 1 && call.b <= NREG { self.meta[call.b] } else { Meta { kind: 0, r: 0, c: 0, maxabs: 0.0, tr: false } };
+        let ia = &call.ia;
+        let ok = |x: i64, lim: usize| x >= 1 && (x as usize) <= lim;
+        let vecshaped = |m: &Meta| m.kind == 1 && (m.r == 1 || m.c == 1) && m.r >= 1 && m.c >= 1;
+        match call.op.as_str() {
+            "get" | "set" | "add_element_mut" | "sub_element_mut" | "mul_element_mut" => ia.len() >= 2 && ok(ia[0], ma.r) && ok(ia[1], ma.c),
+            "get_row" | "get_row_as_vec" | "copy_row_as_vec" => ia.len() >= 1 && ok(ia[0], ma.r),
+            "get_col_as_vec" | "copy_col_as_vec" => ia.len() >= 1 && ok(ia[0], ma.c),
+            "slice" => ia.len() >= 4 && ok(ia[0], ma.r) && ok(ia[1], ma.r) && ia[0] <= ia[1] && ok(ia[2], ma.c) && ok(ia[3], ma.c) && ia[2] <= ia[3],
+            "take" => ia.len() >= 1 && call.iv.iter().all(|&x| ok(x, if ia[0] == 0 { ma.r } else { ma.c })),
+            "v_get" | "v_set" | "v_add_element_mut" | "v_sub_element_mut" | "v_mul_element_mut" => ia.len() >= 1 && ok(ia[0], ma.c),
+            "v_take" => call.iv.iter().all(|&x| ok(x, ma.c)),
+            "scale_mut" => ia.len() >= 1 && call.iv.len() == (if ia[0] == 0 { ma.c } else { ma.r }) && call.iw.len() == call.iv.len(),
+            "cov" => ma.r >= 2,
+            // dot is only specified on two row vectors / two column vectors (same or different length)
+            "dot" => vecshaped(&ma) && vecshaped(&mb) && ((ma.r == mb.r && ma.c == mb.c) || ma.r * ma.c != mb.r * mb.c),
+            "max_diff" => ma.kind == 1 && mb.kind == 1 && ma.r == mb.r && ma.c == mb.c,
+            "var" | "std" | "mean" | "column_mean" | "min" | "max" | "argmax" | "softmax_mut" | "norm_inf" | "norm_ninf" => ma.r >= 1 && ma.c >= 1,
+            _ => true,
+        }
     }
 
     /// Self-contained query on an operand given inline (not stored in a register).
@@ -256,21 +305,27 @@ impl<B: Be> File<B> {
                 }
                 status = "panic";
             }
-            Ok(Res::M(m)) => {
-                let (rr, cc, data) = flat_m::<B>(&m);
-                kind = "m";
-                r = rr;
-                c = cc;
-                self.store(target, Reg::M(m), 1, rr, cc, &data, &mut d, &mut flag);
-            }
-            Ok(Res::Vv(v)) => {
-                let data = flat_v::<B>(&v);
-                kind = "v";
-                r = 1;
-                c = data.len();
-                let n = data.len();
-                self.store(target, Reg::V(v), 2, 1, n, &data, &mut d, &mut flag);
-            }
+            // reading the result back goes through the library as well (shape, get): a result that cannot
+            // be read (get panics on an inconsistent matrix) counts as a panic of the call
+            Ok(Res::M(m)) => match guard(|| flat_m::<B>(&m)) {
+                Ok((rr, cc, data)) => {
+                    kind = "m";
+                    r = rr;
+                    c = cc;
+                    self.store(target, Reg::M(m), 1, rr, cc, &data, &mut d, &mut flag);
+                }
+                Err(_) => status = "panic",
+            },
+            Ok(Res::Vv(v)) => match guard(|| flat_v::<B>(&v)) {
+                Ok(data) => {
+                    kind = "v";
+                    r = 1;
+                    c = data.len();
+                    let n = data.len();
+                    self.store(target, Reg::V(v), 2, 1, n, &data, &mut d, &mut flag);
+                }
+                Err(_) => status = "panic",
+            },
             Ok(Res::Ints(v)) => {
                 kind = "q";
                 match ints(&v) {
@@ -313,13 +368,13 @@ impl<B: Be> File<B> {
                 let maxabs = data.iter().fold(0.0f64, |m, x| m.max(x.abs()));
                 *d = iv;
                 self.regs[target] = reg;
-                self.meta[target] = Meta { kind, r, c, maxabs };
+                self.meta[target] = Meta { kind, r, c, maxabs, tr: false };
             }
             None => {
                 // a register with a non-integer / non-finite entry is dropped on both sides
                 *flag = false;
                 self.regs[target] = Reg::E;
-                self.meta[target] = Meta { kind: 0, r: 0, c: 0, maxabs: 0.0 };
+                self.meta[target] = Meta { kind: 0, r: 0, c: 0, maxabs: 0.0, tr: false };
             }
         }
     }
